@@ -113,7 +113,7 @@ def renumber(desc):
     """The same session in another peer's numbering: dynamic payload types p -> 223 - p (96..127 reversed) and header
     extension ids e -> 15 - e, applied consistently to m=, rtpmap, fmtp (apt= included), rtcp-fb and extmap lines.  The
     mapping is an involution: every description crossing between the two peers, in either direction, goes through it, so
-    each side sees a consistent peer that simply numbers things differently (as a browser does)."""
+    each side sees a consistent peer that simply numbers things differently (as a browser does) and offers a little less."""
     import re
     pt = lambda m: str(223 - int(m)) if 96 <= int(m) <= 127 else m
     out = []
@@ -126,6 +126,10 @@ def renumber(desc):
             line = re.sub(r"\bapt=(\d+)", lambda m: "apt=" + pt(m.group(1)), line)
         elif line.startswith("a=extmap:"):
             line = re.sub(r"^a=extmap:(\d+)", lambda m: "a=extmap:%d" % (15 - int(m.group(1))), line)
+        # ... and the other peer's offers lack two things this library supports: picture loss indication (it offers "nack" but
+        # not "nack pli") and the abs-send-time header extension. What was not offered must not be selected.
+        if desc.type == "offer" and (re.match(r"a=rtcp-fb:\d+ nack pli$", line) or (line.startswith("a=extmap:") and line.endswith("abs-send-time"))):
+            continue
         out.append(line)
     return RTCSessionDescription(sdp="\r\n".join(out), type=desc.type)
 
